@@ -427,3 +427,10 @@ func lemmaVarintRoundTrip(c *varintCodec, n *big.Int, dst *big.Int, version prim
 //@   ensures months: primitive.specVintSize(zz(m)) == 1 ==> result[0] == uint8(zz(m))
 //@   ensures days: primitive.specVintSize(zz(d)) == 1 ==> result[primitive.LengthOfVint(m)] == uint8(zz(d))
 //@   ensures nanos: primitive.specVintSize(zz(n)) == 1 ==> result[primitive.LengthOfVint(m) + primitive.LengthOfVint(d)] == uint8(zz(n))
+
+// a *big.Float becomes a double only when math/big reports the conversion exact (no silent rounding, underflow to
+// zero included)
+//@ func bigFloatToFloat64
+//@   prop C13
+//@   ensures exact: result1 == nil ==> bigexact64(val)
+//@   ensures complete: bigexact64(val) ==> result1 == nil
